@@ -2,7 +2,7 @@
 from . import rtcheck
 
 MODULE = rtcheck.TABLE["C09"]["module"]
-DRIVERS = rtcheck.DRIVERS
+DRIVERS = rtcheck.DRIVERS + ["acq_storage"]
 THEOREMS = rtcheck.TABLE["C09"]["theorems"]
 run = rtcheck.run
 replay = rtcheck.replay
